@@ -442,8 +442,12 @@ def run_requery(case, rec):
     typed = bool(case.get("typed"))
     seen = []
 
+    tree_box = []
+
     def check(tree, rec, eng):
         w = walk(tree)
+        if not tree_box:
+            tree_box.append(tree)
         start = w.pre[case["start"] % len(w.pre)] if (w.pre and case["start"] >= 0) else None
         seen.append(nontrivial(w, w.kids[id(None)]))
         if not w.pre:
@@ -460,6 +464,24 @@ def run_requery(case, rec):
 
     q = requery.run(case, rec, check)
     rec.nt(bool(q and q >= 2 and any(seen)))
+    # directed last step: a leaf that is the only child of its parent is removed with keep_children=True (there is
+    # nothing to keep); the parent is a leaf afterwards and must be drawn as one - also in the compact styles, whose
+    # connectors show whether a node has children
+    if not rec.failed and tree_box:
+        tree = tree_box[0]
+        w = walk(tree)
+        only = [n for n in w.pre if not w.kids[id(n)] and w.parent[id(n)] is not None and len(w.kids[id(w.parent[id(n)])]) == 1]
+        if only and not w.problems:
+            victim = only[case["start"] % len(only)]
+            victim.remove(keep_children=True)
+            w = walk(tree)
+            ev = 0
+            for style in ("round43c", "lines32c", None):
+                ev += check_one(rec, tree, w, None, style, False, True, "fmt", None, typed)
+                if rec.failed:
+                    break
+            rec.evals += ev
+            rec.cls("after-un-nesting-a-childless-only-child")
 
 
 @st.composite
